@@ -375,6 +375,13 @@ func (c *UConn) handshakeContext(ctx context.Context) (ret error) {
 	if c.isClient {
 		err := c.BuildHandshakeState()
 		if err != nil {
+			if c.quic != nil {
+				// The QUIC layer (UQUICConn.Start, HandleData, Close) waits on
+				// these channels: report the failure instead of leaving it blocked.
+				c.handshakeErr = err
+				close(c.quic.blockedc)
+				close(c.quic.signalc)
+			}
 			return err
 		}
 	}
